@@ -22,6 +22,14 @@ type Plan struct {
 	QuantumMs  int                     `json:"quantum_ms"`
 	// Decisions to replay (Sched == "replay") or advice labels.
 	Decisions []string `json:"decisions,omitempty"`
+	// Sched == "barrier": goroutines are collected at the Barrier hooks until BarrierN of them are parked there, then
+	// all are released at once so that the steps after those hooks race for real.
+	// Entries are hook names ("pre_claim") or full keys ("hc_applied@hc:t1#1"). BarrierAfterMs: the barrier is armed
+	// only from that virtual time on. BarrierFree: after the release nothing parks any more.
+	Barrier        []string `json:"barrier,omitempty"`
+	BarrierN       int      `json:"barrier_n,omitempty"`
+	BarrierAfterMs int      `json:"barrier_after,omitempty"`
+	BarrierFree    bool     `json:"barrier_free,omitempty"`
 	// Points that actually park goroutines; empty = all.
 	ParkPoints []string `json:"park_points,omitempty"`
 	Note       string   `json:"note,omitempty"`
